@@ -28,9 +28,30 @@ class SizedError(Exception):
 
 
 def _pool(variant):
-    base = POOLS[variant.get("profile", "falsy")]
-    s = variant.get("salt", 0) % len(base)
-    return base[s:] + base[:s]
+    """Token t -> pool[t].  The FIRST EIGHT tokens are a rotation of the eight falsy values among
+    themselves (salt), so that every token position - the initial value, the first value, the last
+    value before a completion ... - meets None, 0, '', False, [], (), {} and 0.0 over the variants;
+    later tokens are plain values.  (An earlier version rotated the whole 16-element pool by a salt
+    < 8: token 0 could become None but an EMITTED token, >= 1, never could.)"""
+    s = variant.get("salt", 0) % len(_FALSY)
+    rot = _FALSY[s:] + _FALSY[:s]
+    if variant.get("profile", "falsy") == "plain":      # plain values first, the falsy rotation after them
+        return _PLAIN + rot
+    return rot + _PLAIN
+
+
+def _focus_salt(focus, target):
+    """Salt under which token `focus` (< 8) is the falsy value number `target` (0 = None)."""
+    return (target - focus) % len(_FALSY)
+
+
+def _script_tokens(scn):
+    """on_next tokens of a script, in the order the model made the calls (tokens are call numbers)."""
+    toks = [c["a"] for c in scn["top"] if c["c"] == "next"]
+    for per_obs in scn.get("body", []):
+        for cmds in per_obs:
+            toks += [c["a"] for c in cmds if c["c"] == "next"]
+    return sorted(toks)
 
 
 def _errors(variant, n=12):
@@ -274,12 +295,19 @@ TIERS = {
 
 
 def _variants(scn, tier="thorough"):
+    """Value/error/observer-form variants of one history.  The first always makes the LAST value the
+    script emits (the initial value if it emits none) None - the final value of an AsyncSubject, the
+    current value of a BehaviorSubject; the others put another falsy value there / None elsewhere."""
     h = len(json.dumps(scn, sort_keys=True))
-    vs = [dict(profile="falsy", salt=h % 8, form="callbacks", err="plain"),
-          dict(profile="falsy", salt=(h + 3) % 8, form="observer", err="sized"),
-          dict(profile="plain", salt=h % 5, form="callbacks", err="sized")]
-    if tier == "quick":     # two of the three per history, alternating
-        return [vs[0], vs[1 + h % 2]]
+    toks = _script_tokens(scn)
+    last = toks[-1] if toks and toks[-1] < 8 else 0
+    first = toks[0] if toks and toks[0] < 8 else 0
+    vs = [dict(profile="falsy", salt=_focus_salt(last, 0), form="callbacks", err="plain"),
+          dict(profile="falsy", salt=_focus_salt(last, 1 + h % 7), form="observer", err="sized"),
+          dict(profile="falsy", salt=_focus_salt(first, 0), form="callbacks", err="sized"),
+          dict(profile="plain", salt=h % 8, form="callbacks", err="plain")]
+    if tier == "quick":     # the first, and one of the others, alternating
+        return [vs[0], vs[1 + h % 3]]
     return vs
 
 
@@ -334,12 +362,12 @@ def run_kind(pid: str, kind: str, tier: str) -> int:
         ck.sample({"scn": g[0], "allowed": [{k: o[k] for k in ("res", "steps", "logs")} for o in g[1]]})
     ck.rule = ("call histories of subscribe (with / without on_error), unsubscribe, on_next, on_error, on_completed, dispose at "
                "top level and from inside observer callbacks, enumerated lazily by TLC on Subjects.tla (Kind=%s); each "
-               "performed on the real subject under 2-3 value/error/observer-form variants, compared after every top-level "
+               "performed on the real subject under 2-4 value/error/observer-form variants (one always makes the last emitted value None), compared after every top-level "
                "call; non-trivial = some observer received something and the history has a callback reaction, an "
                "unsubscription or a late subscription" % kind)
     ck.assumptions = [
         "single thread; subscribers attach through the public Observable.subscribe (auto-detaching observer)",
-        "values are compared by identity (falsy pool None, 0, '', False, [], (), {}, 0.0 rotated over the tokens)",
+        "values are compared by identity; the first eight value tokens are a rotation of None, 0, '', False, [], (), {}, 0.0; per history one variant makes the last emitted value None, another the first",
         "subscribe on a disposed subject: DisposedException raised to the caller or delivered to the subscriber's on_error are both accepted (DESIGN D.8)",
         "dispose() of the subject from inside a callback is not driven (the statement does not say whether the remaining members of the snapshot still receive the notification)",
         "observer callbacks do not raise (fault dimension belongs to C09)",
@@ -361,15 +389,16 @@ _BIG = _FALSY + list(range(1, 41))      # 48 pairwise distinguishable objects (i
 
 
 def _rtok_to_val(tok, salt):
+    # tokens 0..7 (top-level on_next calls) rotate over the eight falsy values, the rest are plain ints
     i = tok if tok < 100 else 20 + (tok - 100)
-    return _BIG[(i + salt) % len(_BIG)]
+    return _BIG[(i + salt) % 8] if i < 8 else _BIG[i]
 
 
 def _rval_to_tok(v, salt):
     idx = _ident(_BIG, v)
     if idx < 0:
         return -1
-    i = (idx - salt) % len(_BIG)
+    i = (idx - salt) % 8 if idx < 8 else idx
     return i if i < 20 else 100 + (i - 20)
 
 
@@ -582,11 +611,15 @@ REPLAY_TIERS = {
 def _replay_variants(tier):
     def f(scn):
         h = len(json.dumps(scn, sort_keys=True))
+        toks = [c["a"] for c in scn["top"] if c["c"] == "next" and c["a"] < 8]
+        last, first = (toks[-1], toks[0]) if toks else (1, 1)
+        none_last, none_first, other = (0 - last) % 8, (0 - first) % 8, (1 + h % 7 - last) % 8   # salts: that token is None / another falsy value
         if scn.get("eager"):     # no virtual clock: one run per value rotation
-            return [dict(salt=h % 8, clock="current", err="plain"), dict(salt=(h + 5) % 8, clock="current", err="sized")]
-        vs = [dict(salt=h % 8, clock="test", err="plain"), dict(salt=(h + 5) % 8, clock="hist", err="sized")]
+            return [dict(salt=none_last, clock="current", err="plain"), dict(salt=other, clock="current", err="sized")]
+        vs = [dict(salt=none_last, clock="test", err="plain"), dict(salt=other if h % 2 else none_first, clock="hist", err="sized")]
         if tier != "quick":
-            vs.append(dict(salt=(h + 2) % 8, clock="test", window_as="timedelta", unit=0.25))
+            vs.append(dict(salt=none_first, clock="test", window_as="timedelta", unit=0.25))
+            vs.append(dict(salt=other, clock="hist", err="plain"))
         return vs
     return f
 
